@@ -140,8 +140,12 @@ class FrameCollector:
         f_locals = frame.f_locals
         _self = f_locals.get('self', None)
         class_name = None
-        if _self is not None and hasattr(_self, '__class__'):
-            class_name = _self.__class__.__name__
+        if _self is not None:
+            try:
+                class_name = _self.__class__.__name__
+            except BaseException:
+                # a self whose class cannot be read (its attribute access raises) does not fail the snapshot
+                class_name = None
 
         var_ids = []
         # only process vars if we are under the time limit
